@@ -19,10 +19,29 @@ class Facts:
         if not os.environ.get("SNOWLINT_NO_NORMALIZE"):
             normalize.rewrite_is_ok(d)
             normalize.rewrite_split_at(d)
+        if base is not None and ("adts:" + cfg_id) in base:
+            aren = normalize.detect_adt_renames(normalize.adt_index(d), base["adts:" + cfg_id])
+            if aren:
+                txt = normalize.apply_renames_text(txt, aren)
+                d = json.loads(txt)
+                normalize.rewrite_is_ok(d)
+                normalize.rewrite_split_at(d)
+                self.normalized += [("rename-type", n, k) for n, k in sorted(aren.items())]
+            fren = normalize.detect_field_renames(normalize.adt_index(d), base["adts:" + cfg_id])
+            if fren:
+                normalize.apply_field_renames(d, fren)
+                self.normalized += [("rename-field", n, k) for n, k in sorted(fren.items())]
         if base is not None and cfg_id in base:
             ren = normalize.detect_renames(normalize.index_of(d), base[cfg_id])
             if ren:
-                d = json.loads(normalize.apply_renames_text(txt, ren))
+                txt = normalize.apply_renames_text(txt, ren)
+                d = json.loads(txt)
+                normalize.rewrite_is_ok(d)
+                normalize.rewrite_split_at(d)
+                if base is not None and ("adts:" + cfg_id) in base:
+                    fren = normalize.detect_field_renames(normalize.adt_index(d), base["adts:" + cfg_id])
+                    if fren:
+                        normalize.apply_field_renames(d, fren)
                 self.normalized += [("rename", n, k) for n, k in sorted(ren.items())]
             self.normalized += [("inline", r, p) for (p, r) in normalize.normalize(d, base[cfg_id])]
         if not os.environ.get("SNOWLINT_NO_NORMALIZE"):
